@@ -174,7 +174,7 @@ func streamShapes(b *reclib.Builder) []reclib.History {
 					Name: fmt.Sprintf("stream shape: %s %s, GOP %d, in-band codec parameters change at the key frames %v, segments of %dms",
 						kind, with, gop, at, seg/ms),
 					PartDuration: 100 * ms, SegmentDuration: seg,
-					Sessions:     []reclib.Session{b.Build(o)},
+					Sessions: []reclib.Session{b.Build(o)},
 				})
 			}
 		}
